@@ -60,6 +60,8 @@ TRUSTED = [
     "Flask test client + appboot shims; BufferedReader window semantics (C20)",
 ]
 ASSUMPTIONS = [
+    "with bugs=saio in force the value of the (permitted) stale saio offset is compared with the model only statistically "
+    "(counter bugs=saio:stale-value-differs-from-model): it depends on dashlive's lazy-parsing order; every other field is compared exactly",
     "stored segment inside the model's domain: one moof directly followed by one mdat, one traf with exactly one tfhd and one trun, "
     "at most one tfdt/saio/senc, a senc has >= 1 sample entry and a saiz peer, typed boxes stored with canonical sizes",
     "re-encoding a senc/PIFF box preserves the length of every sample entry (entries are opaque; see final report: flags|=2 defect reported to C04)",
@@ -374,6 +376,38 @@ def override_specs() -> list[dict]:
     return out
 
 
+def history_specs() -> list[dict]:
+    """management histories: (a deleted, b added): clear many-segment stream then an encrypted one with
+    another layout, and the reverse"""
+    clear = {"video": dict(timescale=240, durations=[960] * 5, samples_per_segment=[3, 4, 2, 5, 3], payload_size=120,
+                           with_styp=True, with_sidx=True, seed=9301),
+             "audio": dict(timescale=48000, durations=[192000] * 5, samples_per_segment=[4] * 5, payload_size=50,
+                           track_id=2, seed=9302, with_tfdt=False),
+             "aligned": False}
+    enc = {"video": dict(timescale=600, durations=[2400, 2500, 2300], samples_per_segment=[2, 6, 3], payload_size=35,
+                         encrypted=True, iv_size=16, subsamples=True, traf_order="senc_first", seed=9303, base="absolute"),
+           "audio": dict(timescale=44100, durations=[88200, 88200, 88000], samples_per_segment=[7, 7, 7], payload_size=20,
+                         track_id=2, encrypted=True, iv_size=8, subsamples=False, seed=9304),
+           "aligned": False}
+    return [{"a": clear, "b": enc}, {"a": dict(enc, salt="h2"), "b": dict(clear, salt="h2")}]
+
+
+def history_cases() -> list[dict]:
+    out = []
+    for h in history_specs():
+        sid = "c03s" + spec_id(h["b"])
+        for kind, ext in (("video", "m4v"), ("audio", "m4a")):
+            kw = h["b"][kind]
+            enc = bool(kw.get("encrypted"))
+            for k in range(1, len(kw["durations"]) + 1):
+                for ov in ([{"drm": "all"}, {"drm": "clearkey", "bugs": "saio"}] if enc else
+                           [{}] + ([{"events": "ping", "ping__interval": "50"}] if kind == "video" else [])):
+                    out.append({"src": {"synth": h["b"], "track": kind[0]}, "mode": "vod", "addr": "number",
+                                "url": f"/dash/vod/{sid}/{sid}_{kind[0]}/{k}.{ext}?{query_of(ov)}",
+                                "now": VOD_NOW, "ov": ov, "history": h})
+    return out
+
+
 def reader_window() -> tuple[int, int]:
     """(buffersize, max_buffers) of the BufferedReader `load_fragment` reads a stored segment
     through – looked up from the code under test so that a changed default is followed"""
@@ -643,7 +677,94 @@ def fetch(case: dict):
         return app().client().get(url)
 
 
+# --------------------------------------------------------------------------- management histories
+
+_MEDIA_CLIENT = None
+_HISTORY_ACTIVE: set = set()
+
+
+def media_client():
+    """a client logged in as the media user, with its CSRF cookie"""
+    global _MEDIA_CLIENT
+    if _MEDIA_CLIENT is None:
+        import appboot
+        c = app().client()
+        r = app().login(c, appboot.MEDIA)
+        assert r.status_code == 200, r.status_code
+        c.get("/streams?ajax=1")
+        _MEDIA_CLIENT = (c, c.get_cookie("csrf").value)
+    return _MEDIA_CLIENT
+
+
+def delete_stream(spec: dict) -> int:
+    """delete a registered synthetic stream through the real route (DELETE /stream/<pk>/delete as
+    the media user with a CSRF token) and forget its tracks"""
+    from dashlive.server.requesthandler.csrf import CsrfProtection
+    sid = "c03s" + spec_id(spec)
+    with app().ctx() as models:
+        st = models.Stream.get(directory=sid)
+        pk = st.pk if st is not None else None
+    status = 0
+    if pk is not None:
+        c, key = media_client()
+        with app().app.test_request_context("/"):
+            tok = CsrfProtection.generate_token("streams", key)
+        status = c.delete(f"/stream/{pk}/delete", query_string={"ajax": "1", "csrf_token": tok}).status_code
+    for n in _STREAMS.pop(sid, []):
+        _TRACKS.pop(n, None)
+    return status
+
+
+def ensure_history(h: dict) -> None:
+    """management history in front of the requests for stream `b` (CHECKLIST 1):
+    `ref` (= the files of b under other names) is registered and never touched; stream `a` is
+    registered, its manifest and every segment requested (rows loaded), then deleted through the
+    real route while its rows are the newest of their tables; stream `b` (another layout) is
+    registered right afterwards.  Idempotent per process; re-activation deletes b first."""
+    key = json.dumps(h, sort_keys=True)
+    if key in _HISTORY_ACTIVE:
+        return
+    import appboot
+    synth_stream(dict(h["b"], salt="ref"))
+    delete_stream(h["b"])
+    a_tracks = synth_stream(h["a"])
+    c = app().client()
+    with appboot.Clock(VOD_NOW):
+        c.get(f"/dash/vod/{a_tracks[0].dir}/hand_made.mpd?drm=all")
+        for t in a_tracks:
+            for k in range(1, t.nseg + 1):
+                c.get(vod_url(t, k, {"drm": "all"} if t.enc else {}, "number"))
+    st = delete_stream(h["a"])
+    if st != 200:
+        raise RuntimeError(f"deleting stream a through /stream/<pk>/delete answered {st}")
+    synth_stream(h["b"])
+    _HISTORY_ACTIVE.add(key)
+
+
 def run_case(case: dict) -> dict:
+    """one request judged by the oracle (and prepared for the model comparison).  A case with a
+    `history` is served after that management history and must in addition be answered exactly as
+    the same file is answered without the history (reference stream registered under other names)"""
+    if "history" not in case:
+        return _run_case_plain(case)
+    h = case["history"]
+    ensure_history(h)
+    res = _run_case_plain(case)
+    t = res["track"]
+    ref = next(x for x in synth_stream(dict(h["b"], salt="ref")) if x.name[-1] == t.name[-1])
+    ref_url = case["url"].replace(t.dir, ref.dir)
+    rr = fetch(dict(case, url=ref_url))
+    ref_sha = hashlib.sha1(rr.data).hexdigest() if rr.status_code == 200 else None
+    if (res["status"], res.get("served_sha1")) != (rr.status_code, ref_sha):
+        res["fails"] = res["fails"] + [{
+            "clause": "history",
+            "detail": f"after the management history (stream a requested, deleted through /stream/<pk>/delete, stream b added) "
+                      f"the request is answered {res['status']} sha1 {str(res.get('served_sha1'))[:12]}; the same file registered "
+                      f"without that history is answered {rr.status_code} sha1 {str(ref_sha)[:12]}"}]
+    return res
+
+
+def _run_case_plain(case: dict) -> dict:
     """real request + oracle; returns a result dict (driver line under 'line' when in the model's domain)"""
     t = track_of(case["src"])
     ov = eff_ov(t, case["ov"])
@@ -656,6 +777,7 @@ def run_case(case: dict) -> dict:
         return res
     served = r.data
     res["served_len"] = len(served)
+    res["served_sha1"] = hashlib.sha1(served).hexdigest()
     # which stored segment is this?  (decided by payload identity, independent of the timing maths of C01/C02)
     k = None
     try:
@@ -741,11 +863,14 @@ def payload_diff(t: Track, got: bytes) -> str:
 
 
 def case_json(case: dict) -> dict:
-    return {k: case[k] for k in ("src", "mode", "addr", "url", "now", "ov")}
+    return {k: case[k] for k in ("src", "mode", "addr", "url", "now", "ov", "history") if k in case}
 
 
 def shrink(case: dict) -> dict:
     """drop options one at a time while the oracle still fails"""
+    if "history" in case:
+        return case                    # the history is the input; nothing to drop
+
     def fails(c):
         try:
             return bool(run_case(c)["fails"])
@@ -834,6 +959,12 @@ def evaluate(cases: list[dict], ch: Channel) -> None:
         model = c03_layout.parse_answer(ans)
         diff = {k: {"model": model.get(k), "served": view.get(k)} for k in c03_layout.COMPARED
                 if model.get(k) != view.get(k)}
+        if "saio" in diff and eff_ov(t, c["ov"]).get("bugs") == "saio":
+            # with bugs=saio the served offset is the stale pass-1 value the property permits; which stale
+            # value it is depends on which sibling boxes dashlive happens to have parsed lazily when the tfdt
+            # grows (event-bus internals, changed again by /repo 26d6882) – counted, not a disagreement
+            del diff["saio"]
+            ch.count("bugs=saio:stale-value-differs-from-model")
         if r.get("pre_mismatch"):
             diff["pre"] = {"model": "stored pre minus first sidx, then emsg*", "served": view["top"]}
         if diff:
@@ -1064,7 +1195,8 @@ def channels(ctx):
     rng = ctx.rng("segrewrite")
     tracks = all_tracks(rng, ctx.scale(60, 700))
     fixed = fixed_cases()
-    cases = corpus_cases() + fixed
+    # management histories run first: the deleted stream's rows must be the newest when it is deleted
+    cases = corpus_cases() + history_cases() + fixed
     cases += gen_cases(rng, tracks, ctx.scale(1800, 34000))
     # history: every third fixed request is issued again after everything else (other streams, modes, option
     # vectors and clocks in between) and judged again – the property holds whatever came before
@@ -1125,7 +1257,7 @@ def search(ctx, disagreements):
     tracks = all_tracks(rng, 60 if not ctx.thorough else 200)
     for spec in fixed_specs() + size_class_specs() + boundary_specs() + override_specs():
         tracks += synth_stream(spec)
-    for c in fixed_cases() + gen_cases(rng, tracks, 2500 if not ctx.thorough else 20000, live_share=.3):
+    for c in history_cases() + fixed_cases() + gen_cases(rng, tracks, 2500 if not ctx.thorough else 20000, live_share=.3):
         f = _failing(c)
         if f:
             return f
